@@ -26,10 +26,29 @@ pub struct BudgetExceeded {
     pub last: String,
 }
 
+/// logical budgets of one monitored call (0 = unlimited)
+#[derive(Clone, Copy, Debug, Default)]
+pub struct Budget {
+    /// all loop tops + k-shortest-path loop turns together
+    pub steps: u64,
+    /// turns of a k-shortest-path outer loop
+    pub ksp_outer: u64,
+    /// spur / alternative evaluations of a k-shortest-path algorithm
+    pub ksp_inner: u64,
+}
+
+impl From<u64> for Budget {
+    fn from(steps: u64) -> Budget {
+        Budget { steps, ksp_outer: 0, ksp_inner: 0 }
+    }
+}
+
 #[derive(Default)]
 pub struct Ctx {
     pub steps: u64,
     pub step_limit: u64,
+    pub ksp_outer_limit: u64,
+    pub ksp_inner_limit: u64,
     pub record: bool,
     pub events: Vec<Ev>,
     pub n_loop_top: u64,
@@ -121,16 +140,27 @@ impl Ctx {
         };
         if self.record {
             if let Some(o) = owned.clone() {
-                if self.events.len() < 2_000_000 {
+                if self.events.len() < 400_000 {
                     self.events.push(o);
                 }
             }
         }
-        if self.step_limit > 0 && self.steps > self.step_limit {
+        let over = if self.step_limit > 0 && self.steps > self.step_limit {
+            Some((self.steps, self.step_limit))
+        } else if self.ksp_outer_limit > 0 && self.n_ksp_outer > self.ksp_outer_limit {
+            Some((self.n_ksp_outer, self.ksp_outer_limit))
+        } else if self.ksp_inner_limit > 0 && self.n_ksp_inner > self.ksp_inner_limit {
+            Some((self.n_ksp_inner, self.ksp_inner_limit))
+        } else {
+            None
+        };
+        if let Some((steps, limit)) = over {
             let last = format!("{:?}", owned);
-            let payload = BudgetExceeded { steps: self.steps, limit: self.step_limit, last };
+            let payload = BudgetExceeded { steps, limit, last };
             // disarm so that unwinding code that emits further events does not double panic
             self.step_limit = 0;
+            self.ksp_outer_limit = 0;
+            self.ksp_inner_limit = 0;
             std::panic::panic_any(payload);
         }
     }
@@ -203,14 +233,23 @@ pub enum Caught {
 
 /// run `f` on this thread with a hook context (logical step budget, optional event recording).
 /// returns what `f` returned, or how it unwound, plus the context with everything observed.
-pub fn with_ctx<R>(step_limit: u64, record: bool, f: impl FnOnce() -> R) -> (Result<R, Caught>, Ctx) {
-    with_ctx_timed(step_limit, record, false, f)
+pub fn with_ctx<R>(budget: impl Into<Budget>, record: bool, f: impl FnOnce() -> R) -> (Result<R, Caught>, Ctx) {
+    with_ctx_timed(budget, record, false, f)
 }
 
-pub fn with_ctx_timed<R>(step_limit: u64, record: bool, timed: bool, f: impl FnOnce() -> R) -> (Result<R, Caught>, Ctx) {
+pub fn with_ctx_timed<R>(budget: impl Into<Budget>, record: bool, timed: bool, f: impl FnOnce() -> R) -> (Result<R, Caught>, Ctx) {
     install();
+    let b: Budget = budget.into();
     CTX.with(|c| {
-        *c.borrow_mut() = Some(Ctx { step_limit, record, time_loop_tops: timed, t0: Some(std::time::Instant::now()), ..Default::default() });
+        *c.borrow_mut() = Some(Ctx {
+            step_limit: b.steps,
+            ksp_outer_limit: b.ksp_outer,
+            ksp_inner_limit: b.ksp_inner,
+            record,
+            time_loop_tops: timed,
+            t0: Some(std::time::Instant::now()),
+            ..Default::default()
+        });
     });
     LAST_PANIC.with(|p| *p.borrow_mut() = None);
     let r = catch_unwind(AssertUnwindSafe(f));
